@@ -1,34 +1,185 @@
-(* C07 - truncated or damaged input is detected, never silently mis-loaded (Oscar family, loader model of C01).
-   Proved at line level: a cut at an event boundary loads exactly the complete events before it; a cut right
-   after an event header, a cut that ends in (any prefix of) a particle line or of the format line, a lost
-   particle line and a duplicated particle line all fail to load.  NOT proved here (covered by the exhaustive
-   byte-offset correspondence only): cuts inside an event-header / footer comment line (Oscar) and inside the trailer after
-   the word sigmaGen (JETSCAPE) -
-   hence the name C07_trunc_partial_* for the truncation theorems. *)
+(* C07 - truncated or damaged input is detected, never silently mis-loaded (loader models of C01).
+
+   C07_trunc / C07_jetscape_trunc: ONE statement per format family over EVERY truncation point of every
+   well-formed file.  The truncated file is what the loaders see after their split into lines and blank-separated
+   tokens: n complete lines, then either nothing (the cut falls on a line boundary; the file still ends with a
+   newline: load) or the first j tokens of line n followed by an arbitrary prefix p of token j, empty and whole
+   token included (no final newline: load_nonl).  C07_cut_bytes_are_token_cuts proves that every non-empty
+   string prefix of a rendered file is of this form.  The result is an error, or exactly the first m complete events
+   with matching counts, and then the cut is the line boundary after event m or lies in the footer line of event m
+   at or after its word "end" (Oscar; the loader still sees '#' and 'end' in that line) / in the trailer at or
+   after the word sigmaGen with ALL events returned (JETSCAPE).
+   Hypotheses beyond wf: the comment lines have the SMASH shape '# event <i> out <n>' / '# event <i> end ...'
+   with decimal numerals without leading zeros, the three file header lines do not contain "event" (shape);
+   only the JETSCAPE trailer contains "sigmaGen" and it starts with '#' (jshape); int() of a decimal numeral is
+   its value and int('') fails (int_oracle_ok).
+   The line-level theorems of the first stage (boundary cut, after header, non-comment last line, lost line,
+   duplicated line) are kept below; the truncation ones are now ingredients of C07_trunc. *)
 From Coq Require Import List String ZArith QArith Bool Arith.
-From SX Require Import Lib.Strs Gen.GenParticleMap Model.Oscar Model.OscarDoc Model.Jetscape Model.JetscapeDoc Proofs.C01_Oscar
-  Proofs.C07_Oscar Proofs.C07_Jetscape.
+From SX Require Import Lib.Strs Lib.DecStr Lib.Split Lib.CutSplit Gen.GenParticleMap Model.Oscar Model.OscarDoc Model.Jetscape Model.JetscapeDoc
+  Model.C07Aux Proofs.C01_Oscar Proofs.C01_Example Proofs.C02_JetscapeExample
+  Proofs.C07_Oscar Proofs.C07_Jetscape Proofs.C07_OscarTrunc Proofs.C07_JetscapeTrunc Proofs.C07_TruncExample Proofs.C07_Bytes
+  Proofs.C07_OscarDamage Proofs.C07_JetscapeDamage.
 Import ListNotations.
 Local Open Scope string_scope.
 
+(* ---- every truncation point, Oscar family (Oscar2013 / Oscar2013Extended / ASCII) *)
+Theorem C07_trunc :
+  forall tok_float tok_int pdg_valid, int_oracle_ok tok_int ->
+  forall d fmt attrs n (c : partial),
+  wf tok_float tok_int pdg_valid d fmt attrs -> shape d ->
+  (n <= List.length (render d))%nat -> valid_partial (nth n (render d) []) c ->
+  match load_cut tok_float tok_int pdg_valid (cut_lines (render d) n c) c with
+  | Err _ => True
+  | Ok r =>
+    exists m, (1 <= m <= List.length (d_events d))%nat /\
+              same_data r (expected tok_float tok_int pdg_valid (truncd m d) fmt attrs) /\
+              oscar_cut_position d n c m /\
+              l_footers r = oscar_cut_footers d n c m
+  end.
+Proof. exact oscar_trunc. Qed.
+Print Assumptions C07_trunc.
+
+(* the same through Oscar.__init__ (load, then impact_parameter() over the end lines that were kept) *)
+Theorem C07_trunc_ctor :
+  forall tok_float tok_int pdg_valid d fmt attrs n (c : partial),
+  int_oracle_ok tok_int -> wf tok_float tok_int pdg_valid d fmt attrs -> shape d ->
+  (n <= List.length (render d))%nat -> valid_partial (nth n (render d) []) c ->
+  match ctor_cut tok_float tok_int pdg_valid (cut_lines (render d) n c) c with
+  | Err _ => True
+  | Ok (r, imps) =>
+    exists m, (1 <= m <= List.length (d_events d))%nat /\
+              same_data r (expected tok_float tok_int pdg_valid (truncd m d) fmt attrs) /\
+              oscar_cut_position d n c m /\ List.length imps = m
+  end.
+Proof. exact oscar_trunc_ctor. Qed.
+Print Assumptions C07_trunc_ctor.
+
+(* non-vacuity: hypotheses met by a concrete file; cuts that load (boundaries, '# event 1 end', '# event 1 end 0 imp')
+   and cuts that fail, evaluated on the model *)
+Theorem C07_trunc_example :
+  int_oracle_ok dec_int /\ wf ex_tf dec_int ex_pv ex_doc "Oscar2013" [] /\ shape ex_doc /\
+  summary (ex_cut 6 None) = Some ([1%nat], 1%Z, [(0, 1)%Z], 1%nat) /\
+  summary (ex_cut 8 None) = Some ([1%nat; 0%nat], 2%Z, [(0, 1); (1, 0)]%Z, 2%nat) /\
+  summary (ex_cut 7 (Some (3%nat, "end"))) = Some ([1%nat; 0%nat], 2%Z, [(0, 1); (1, 0)]%Z, 1%nat) /\
+  summary (ex_cut 7 (Some (5%nat, "imp"))) = Some ([1%nat; 0%nat], 2%Z, [(0, 1); (1, 0)]%Z, 2%nat) /\
+  errof (ctor_cut ex_tf dec_int ex_pv (cut_lines (render ex_doc) 7 (Some (5%nat, "imp"))) (Some (5%nat, "imp"))) = Some ValueError /\
+  errof (ctor_cut ex_tf dec_int ex_pv (cut_lines (render ex_doc) 7 (Some (3%nat, "end"))) (Some (3%nat, "end"))) = Some IndexError /\
+  (exists r, ctor_cut ex_tf dec_int ex_pv (cut_lines (render ex_doc) 7 (Some (4%nat, "0"))) (Some (4%nat, "0")) = Ok r) /\
+  errof (ex_cut 7 (Some (3%nat, "en"))) = Some ValueError /\
+  errof (ex_cut 6 (Some (2%nat, "1"))) = Some IndexError /\
+  errof (ex_cut 6 (Some (3%nat, "out"))) = Some IndexError /\
+  errof (ex_cut 6 (Some (4%nat, "0"))) = Some IndexError /\
+  errof (ex_cut 4 (Some (3%nat, "0."))) = Some TypeError /\
+  errof (ex_cut 1 (Some (1%nat, "Uni"))) = Some TypeError.
+Proof. exact example_cuts. Qed.
+Print Assumptions C07_trunc_example.
+
+(* the digit-string case: '# event 10 out 0' / '# event 11 out 0' cut to '# event 1' is rejected by the final
+   comparison (2 events announced, 10 / 11 read); the cut at the boundary before it loads 10 events *)
+Theorem C07_trunc_example_label_prefix :
+  errof (load_cut ex_tf dec_int ex_pv (cut_lines (render ex_doc12) 23 (Some (2%nat, "1"))) (Some (2%nat, "1"))) = Some IndexError /\
+  errof (load_cut ex_tf dec_int ex_pv (cut_lines (render ex_doc12) 25 (Some (2%nat, "1"))) (Some (2%nat, "1"))) = Some IndexError /\
+  summary (load_cut ex_tf dec_int ex_pv (cut_lines (render ex_doc12) 23 None) None)
+  = Some (repeat 0%nat 10, 10%Z, map (fun i => (Z.of_nat i, 0%Z)) (seq 0 10), 10%nat).
+Proof. exact example_label_prefix. Qed.
+Print Assumptions C07_trunc_example_label_prefix.
+
+(* ---- every truncation point, JETSCAPE (the model's jload makes no use of a final newline) *)
+Theorem C07_jetscape_trunc :
+  forall tok_float tok_int pdg_valid pdg_charge usqrt defstr d s1 s2 n (c : partial),
+  jwf tok_float tok_int pdg_valid pdg_charge usqrt defstr d s1 s2 -> jshape d ->
+  (n <= List.length (jrender d))%nat -> valid_partial (nth n (jrender d) []) c ->
+  match jload tok_float tok_int pdg_valid pdg_charge usqrt None (cut_lines (jrender d) n c) defstr SelAll with
+  | Err _ => True
+  | Ok r =>
+    same_jdata r (jexpected tok_float tok_int pdg_valid pdg_charge usqrt d s1 s2) /\
+    match c with
+    | None => n = List.length (jrender d) /\ r = jexpected tok_float tok_int pdg_valid pdg_charge usqrt d s1 s2
+    | Some (j, p) => S n = List.length (jrender d) /\ has "sigmaGen" (cut_line (jd_trailer d) j p) = true
+    end
+  end.
+Proof. exact jet_trunc. Qed.
+Print Assumptions C07_jetscape_trunc.
+
+Theorem C07_jetscape_trunc_example :
+  jwf exj_tf exj_ti exj_pv exj_pc exj_sqrt "N_hadrons" exj_doc (3#2) (1#8) /\ jshape exj_doc /\
+  jsummary (exj_cut 10 None) = Some ([2; 0; 1; 1]%nat, 4%Z, [(1, 2); (2, 0); (3, 1); (4, 1)]%Z, ((3#2)%Q, (1#8)%Q)) /\
+  jsummary (exj_cut 9 (Some (4%nat, "0"))) = Some ([2; 0; 1; 1]%nat, 4%Z, [(1, 2); (2, 0); (3, 1); (4, 1)]%Z, ((3#2)%Q, 0%Q)) /\
+  errof (exj_cut 9 (Some (3%nat, "sigmaE"))) = Some IndexError /\
+  errof (exj_cut 9 (Some (1%nat, "sigmaG"))) = Some ValueError /\
+  errof (exj_cut 9 None) = Some ValueError /\
+  errof (exj_cut 8 (Some (2%nat, "2"))) = Some ValueError.
+Proof. exact exj_cuts. Qed.
+Print Assumptions C07_jetscape_trunc_example.
+
+(* ---- a byte-level cut IS a token-level cut: every non-empty string prefix P of the text of a file (lines joined
+   and terminated by newlines, tokens joined by single blanks) splits, the way the loaders split, into
+   cut_lines lines n c for some n and some valid partial c *)
+Theorem C07_cut_bytes_are_token_cuts :
+  forall (lines : list line) (P : string),
+  Forall (fun l => l <> [] /\ forallb (fun t => no_char sp t && no_char nl t) l = true) lines ->
+  prefix P (file_text lines) = true -> P <> "" ->
+  exists n c, (n <= List.length lines)%nat /\ valid_partial (nth n lines []) c /\
+              lines_seen P = cut_lines lines n c /\
+              ends_with_newline c = string_ends_with_newline P.
+Proof. exact cut_bytes_are_token_cuts. Qed.
+Print Assumptions C07_cut_bytes_are_token_cuts.
+
+(* ---- one particle line lost / duplicated anywhere in a well-formed file (row k of any event): the load fails *)
+Theorem C07_delete :
+  forall tok_float tok_int pdg_valid d fmt attrs pre e post k,
+  wf tok_float tok_int pdg_valid d fmt attrs -> d_events d = (pre ++ e :: post)%list -> (k < List.length (e_rows e))%nat ->
+  load tok_float tok_int pdg_valid None
+       (render (with_events d (pre ++ set_rows e (delete_row k (e_rows e)) :: post)%list)) SelAll = Err IndexError.
+Proof. exact delete_any_row. Qed.
+Print Assumptions C07_delete.
+
+Theorem C07_dup :
+  forall tok_float tok_int pdg_valid d fmt attrs pre e post k,
+  wf tok_float tok_int pdg_valid d fmt attrs -> d_events d = (pre ++ e :: post)%list -> (k < List.length (e_rows e))%nat ->
+  load tok_float tok_int pdg_valid None
+       (render (with_events d (pre ++ set_rows e (dup_row k (e_rows e)) :: post)%list)) SelAll = Err IndexError.
+Proof. exact duplicate_any_row. Qed.
+Print Assumptions C07_dup.
+
+Theorem C07_jetscape_delete :
+  forall tok_float tok_int pdg_valid pdg_charge usqrt defstr d s1 s2 pre e post k,
+  jwf tok_float tok_int pdg_valid pdg_charge usqrt defstr d s1 s2 -> jd_events d = (pre ++ e :: post)%list ->
+  (k < List.length (je_rows e))%nat ->
+  jload tok_float tok_int pdg_valid pdg_charge usqrt None
+        (jrender (jwith_events d (pre ++ jset_rows e (delete_row k (je_rows e)) :: post)%list)) defstr SelAll = Err IndexError.
+Proof. exact jet_delete_any_row. Qed.
+Print Assumptions C07_jetscape_delete.
+
+Theorem C07_jetscape_dup :
+  forall tok_float tok_int pdg_valid pdg_charge usqrt defstr d s1 s2 pre e post k,
+  jwf tok_float tok_int pdg_valid pdg_charge usqrt defstr d s1 s2 -> jd_events d = (pre ++ e :: post)%list ->
+  (k < List.length (je_rows e))%nat ->
+  jload tok_float tok_int pdg_valid pdg_charge usqrt None
+        (jrender (jwith_events d (pre ++ jset_rows e (dup_row k (je_rows e)) :: post)%list)) defstr SelAll = Err IndexError.
+Proof. exact jet_duplicate_any_row. Qed.
+Print Assumptions C07_jetscape_dup.
+
+(* ---- first-stage line-level theorems (declared-vs-present counts; ingredients of the theorems above) *)
 (* cut at an event boundary: the first m complete events, with matching counts *)
-Theorem C07_trunc_partial_event_boundary :
+Theorem C07_trunc_event_boundary :
   forall tok_float tok_int pdg_valid d fmt attrs m,
   wf tok_float tok_int pdg_valid d fmt attrs -> foot_labels tok_int 0 (d_events d) ->
   (1 <= m <= List.length (d_events d))%nat ->
-  render (trunc m d) = firstn (3 + List.length (render_events (firstn m (d_events d)))) (render d) /\
-  load tok_float tok_int pdg_valid None (render (trunc m d)) SelAll
-    = Ok (expected tok_float tok_int pdg_valid (trunc m d) fmt attrs) /\
-  l_events (expected tok_float tok_int pdg_valid (trunc m d) fmt attrs)
+  render (C07_Oscar.trunc m d) = firstn (3 + List.length (render_events (firstn m (d_events d)))) (render d) /\
+  load tok_float tok_int pdg_valid None (render (C07_Oscar.trunc m d)) SelAll
+    = Ok (expected tok_float tok_int pdg_valid (C07_Oscar.trunc m d) fmt attrs) /\
+  l_events (expected tok_float tok_int pdg_valid (C07_Oscar.trunc m d) fmt attrs)
     = firstn m (l_events (expected tok_float tok_int pdg_valid d fmt attrs)) /\
-  l_counts (expected tok_float tok_int pdg_valid (trunc m d) fmt attrs)
+  l_counts (expected tok_float tok_int pdg_valid (C07_Oscar.trunc m d) fmt attrs)
     = firstn m (l_counts (expected tok_float tok_int pdg_valid d fmt attrs)) /\
-  l_nevents (expected tok_float tok_int pdg_valid (trunc m d) fmt attrs) = Z.of_nat m.
+  l_nevents (expected tok_float tok_int pdg_valid (C07_Oscar.trunc m d) fmt attrs) = Z.of_nat m.
 Proof. exact cut_at_event_boundary. Qed.
-Print Assumptions C07_trunc_partial_event_boundary.
+Print Assumptions C07_trunc_event_boundary.
 
 (* cut right after the header line of the next event (any declared count): IndexError *)
-Theorem C07_trunc_partial_after_header :
+Theorem C07_trunc_after_header :
   forall tok_float tok_int pdg_valid d fmt attrs evs (h : line) (dcl : nat),
   hdr_ok d fmt attrs -> wf_events tok_float tok_int pdg_valid fmt attrs 0 evs ->
   kind_scan h = SOut -> kind_loop h = KSkip ->
@@ -38,18 +189,18 @@ Theorem C07_trunc_partial_after_header :
   load tok_float tok_int pdg_valid None (d_h1 d :: d_h2 d :: d_h3 d :: render_events evs ++ [h])%list SelAll
   = Err IndexError.
 Proof. exact cut_after_header. Qed.
-Print Assumptions C07_trunc_partial_after_header.
+Print Assumptions C07_trunc_after_header.
 
 (* the last line is not an event comment (a particle line, any prefix of one, a prefix of the format line):
    TypeError, with and without a final newline - whatever precedes it *)
-Theorem C07_trunc_partial_last_line_not_comment :
+Theorem C07_trunc_last_line_not_comment :
   forall tok_float tok_int pdg_valid file first rest fmt attrs,
   file = first :: rest -> oscar_format first = Ok (fmt, attrs) -> std_format fmt ->
   nth 0 (last file []) "" <> "#" ->
   load tok_float tok_int pdg_valid None file SelAll = Err TypeError /\
   (rest <> [] -> load_nonl tok_float tok_int pdg_valid None file SelAll = Err TypeError).
 Proof. exact last_line_not_comment. Qed.
-Print Assumptions C07_trunc_partial_last_line_not_comment.
+Print Assumptions C07_trunc_last_line_not_comment.
 
 (* one (or more) particle lines lost anywhere: fewer lines than the event headers declare *)
 Theorem C07_lost_line :
@@ -82,12 +233,12 @@ Print Assumptions C07_wf_is_declared.
 
 (* JETSCAPE: any file (any selection, any constructor filter) whose last line does not contain "sigmaGen" is rejected;
    every truncation that stops before that word of the trailer leaves such a last line *)
-Theorem C07_jetscape_trunc_partial_no_trailer :
+Theorem C07_jetscape_no_trailer :
   forall tok_float tok_int pdg_valid pdg_charge usqrt flt (file : list line) defstr sel,
   has "sigmaGen" (last file []) = false ->
   jload tok_float tok_int pdg_valid pdg_charge usqrt flt file defstr sel = Err ValueError.
 Proof. exact jet_last_line_without_sigmaGen. Qed.
-Print Assumptions C07_jetscape_trunc_partial_no_trailer.
+Print Assumptions C07_jetscape_no_trailer.
 
 (* JETSCAPE, a particle line lost anywhere (fewer lines than the event headers declare): IndexError *)
 Theorem C07_jetscape_lost_line :
